@@ -168,7 +168,11 @@ CHECKS = {
                 "with a ledger of what it was told; every os.remove is judged when issued (tracked data file inside the "
                 "tree, oldest of its channel among what is kept, some limit exceeded on the reported files); after a "
                 "creation every limit holds again.",
-        "note": "single-threaded dispatch (the thread tier of DESIGN 5/C16 is not built); inside a batch the order in "
+        "note": "every 6th quick / 3rd thorough run is the thread tier: the existing-file scan thread and the event thread "
+                "run as real threads under a baton scheduler (pre-emption at every traced line of ringbuffer.py and at "
+                "every operation of the replaced _record_lock, decided by the PRNG); there only schedule-independent "
+                "clauses are asserted (no exception/deadlock, deletions are tracked data files, oldest first, internal "
+                "consistency at the end). Elsewhere dispatch is single-threaded; inside a batch the order in "
                 "which the handler learns about files is not observable without hooks, so deletions there are judged "
                 "against an upper bound of what it may believe (never stricter than the property). Files are plain files "
                 "with the format's names.",
